@@ -87,7 +87,9 @@ def _case(draw):
             "how": draw(st.sampled_from(["comment", "policy"])),
             "method": draw(st.sampled_from(list(real.METHODS))),
             "next_method": draw(st.sampled_from(list(real.METHODS))),
-            "all_points": False}
+            "all_points": False,
+            "policies": draw(st.sampled_from([["raise", "collect"], ["raise", "collect"], ["collect"]])),
+            "stop_after": draw(st.sampled_from([False, False, True]))}
 
 
 def strategy(tier):
@@ -115,9 +117,12 @@ def poison(table, cause, line):
     return t
 
 
-def member_text(m, filename, poison_comp=None, raise_comment=False):
+def member_text(m, filename, poison_comp=None, raise_comment=False, stop_after=None):
     prog = {"comps": list(m["prog"]["comps"]), "mode": "AND"}
-    if poison_comp is not None:
+    if poison_comp is not None and stop_after is not None:
+        # the failing component comes first; a later component stops the run on the very same line
+        prog["comps"] = [poison_comp, ["f", "stop", [], [["==", ["f", "line_number", [], []], ["t", stop_after]]]]] + prog["comps"]
+    elif poison_comp is not None:
         prog["comps"] = prog["comps"] + [poison_comp]
     fields = []
     if m["id"] is not None:
@@ -144,12 +149,14 @@ def one_point(case, sb, am, line):
     method = case["method"]
     problems = []
     policy = ["raise", "collect"] if case["how"] == "policy" else ["collect", "print"]
-    sb.write_config(policy)
+    # the CsvPaths-level policy may lack 'raise': the member's own 'raise' must still abort the run
+    sb.write_config(policy, case.get("policies") or ["raise", "collect"])
     rel = sb.write_csv("f.csv", records)
     if line == 0:
         # scan from line 0: the header row offends (its 'e' cell is the text 'e'; vfboom(0) fires there)
         members = [dict(m, scan=("*" if i == am else m["scan"])) for i, m in enumerate(members)]
-    texts = [member_text(m, "", comp if i == am else None, raise_comment=(i == am and case["how"] == "comment")) for i, m in enumerate(members)]
+    texts = [member_text(m, "", comp if i == am else None, raise_comment=(i == am and case["how"] == "comment"),
+                         stop_after=(line if (i == am and case.get("stop_after")) else None)) for i, m in enumerate(members)]
     # standalone references for the members that do not abort (policy without raise for them is irrelevant: they have no error)
     alone = []
     for i, m in enumerate(members):
@@ -233,7 +240,7 @@ def one_point(case, sb, am, line):
     import contextlib, io, warnings
     with warnings.catch_warnings(), contextlib.redirect_stdout(io.StringIO()):
         cps.paths_manager.add_named_paths(name="h", paths=clean)
-    sb.write_config(["collect", "print"])
+    sb.write_config(["collect", "print"], ["raise", "collect"])
     out2 = real.run_group(cps, "h", "f", case["next_method"])
     if out2["raised"]:
         problems.append({"abort": [am, line], "next_run_raised": out2["raised"], "next_method": case["next_method"]})
